@@ -392,7 +392,9 @@ fn routes<T: DeserializeOwned>(text: &str) -> String {
         }
         Err(_) => "parse-error".into(),
     };
-    format!("toml_from_str={r1} edit_from_str={r2} from_imdoc={r3} from_docmut={r4} value_first={r5} table_first={r6} respanned={r7}")
+    // 8. the byte entry point: offsets are into the bytes that were passed in (a BOM included)
+    let r8 = route_edit(toml_edit::de::from_slice::<T>(text.as_bytes()));
+    format!("toml_from_str={r1} edit_from_str={r2} from_imdoc={r3} from_docmut={r4} value_first={r5} table_first={r6} respanned={r7} edit_from_slice={r8}")
 }
 
 fn cmd_deerr(args: &Args) -> String {
